@@ -1,5 +1,5 @@
 (** C07: the hypotheses of the theorems are satisfiable by non-trivial values. *)
-From Coq Require Import List Arith Bool PeanoNat PArith.
+From Coq Require Import List Arith Bool PeanoNat PArith Lia.
 Import ListNotations.
 Require Import Fggs.Model.Semiring Fggs.Model.SumProduct.
 Require Import Fggs.Model.Axis Fggs.Model.PTensor Fggs.Model.AxisCheck Fggs.Model.Einsum Fggs.Model.EinsumCheck Fggs.Model.EinsumCert.
@@ -18,12 +18,38 @@ Example einsum_run_example :
             viterbi_ptr_model bool_ops (fun x y => implb x y) r [] [] = Ok [1].
 Proof. vm_compute. eexists. repeat split; reflexivity. Qed.
 
-(** F24: a repeated output index makes [index_to_vaxis.pop] fail although the signature is
-    meaningful ([einsum] returns a diagonal tensor) *)
-Theorem viterbi_repeated_output_refuted :
-  pop_all [0; 0] [(0, Phys 1 2)] = None /\ out_consistent [0; 0] [1; 1] = true /\
-  pop_all [0] [(0, Phys 1 2)] = Some [].
+(** repeated output indices (F24, repaired in /repo 3f6a623): [pop_all] only fails for an output
+    index that does not occur in the inputs; what is left are exactly the entries of the other
+    indices.  (The code before the repair, [pop_all_old], failed on the second occurrence.) *)
+Theorem pop_all_spec output i2v :
+  (forall l, In l output -> lassoc l i2v <> None) ->
+  exists rest, pop_all output i2v = Some rest /\
+    forall le, In le rest <-> In le i2v /\ ~ In (fst le) output.
+Proof.
+  intros H. unfold pop_all.
+  assert (E : forallb (fun l => match lassoc l i2v with Some _ => true | None => false end) output = true).
+  { apply forallb_forall. intros l Hl. specialize (H l Hl). destruct (lassoc l i2v); [reflexivity|congruence]. }
+  rewrite E. eexists. split; [reflexivity|]. clear. revert i2v. induction output as [|l o IH]; intros i2v le; simpl.
+  - tauto.
+  - rewrite IH, filter_In, negb_true_iff, Nat.eqb_neq. split; [intros [[H1 H2] H3]|intros [H1 H2]]; repeat split; auto; intros [E|E]; auto.
+Qed.
+
+Theorem viterbi_repeated_output_old :
+  pop_all_old [0; 0] [(0, Phys 1 2)] = None /\ pop_all [0; 0] [(0, Phys 1 2)] = Some [] /\ out_consistent [0; 0] [1; 1] = true.
 Proof. repeat split; reflexivity. Qed.
+
+(** a run with a repeated output index, "ij->ii" (j summed out): the premises of C07_argmax hold,
+    the pointers of the diagonal cells are computed, off the diagonal they are the default 0 *)
+Example repeated_output_example :
+  let a := mkST (mkPT (fun idx => Nat.eqb (nth 0 idx 0 + 1) (nth 1 idx 0)) [(1%positive, 2); (2%positive, 3)]
+                      [Phys 1 2; Phys 2 3] false) [3; 1] false in
+  exists r, einsum_run bool_ops Bool.eqb false 10 [a] [[0; 1]] [0; 0] = Ok r /\
+            er_failed r = false /\ er_zero_axis r = false /\ er_outv r = [Phys 1 2; Phys 1 2] /\
+            cert_verdict bool_ops Bool.eqb r [[0; 1]] [0; 0] = 0 /\ cert_viterbi r [[0; 1]] [0; 0] = true /\
+            viterbi_ptr_model bool_ops (fun x y => implb x y) r [0; 0] [0; 0] = Ok [1] /\
+            viterbi_ptr_model bool_ops (fun x y => implb x y) r [0; 0] [1; 1] = Ok [2] /\
+            viterbi_ptr_model bool_ops (fun x y => implb x y) r [0; 0] [0; 1] = Ok [0].
+Proof. vm_compute. eexists. repeat split; reflexivity. Qed.
 
 (** a strided view with a stride-0 dimension and a size-1 dimension: [reduce_equation] drops both *)
 Example reduce_example :
